@@ -39,6 +39,25 @@ class Interp:
         if not self.key_fns:
             self.key_fns = {d for d in printers if H.last(d) == "format_record_key"}
 
+    def is_fragment(self, d, hf):
+        """a helper that prints part of a construct (several children of one node, or a keyword and a child) rather than dispatching
+        on the node kind: its body is interpreted in place of the call"""
+        c = self.__dict__.setdefault("_frag", {})
+        if d in getattr(self, "variant_helpers", ()):
+            return False   # prints one whole node handed over field by field (format_conditional_multiline): a child printer
+        if d not in c:
+            big = any(len(m["arms"]) >= 5 for m in H.matches_on(hf.get("body") or {}, "ast::Expr")) or any(len(m["arms"]) >= 5 for m in H.matches_on(hf.get("body") or {}, "values::SerializableValue"))
+            nodes = sum(1 for t in hf.get("inputs", []) if "ast::Spanned<blots_core::ast::Expr>" in t or t.lstrip("&").startswith("blots_core::ast::Expr"))
+            body_ = hf.get("body") or {}
+            hirs = getattr(self.crate, "hir", {})
+            wraps_general = sum(1 for x in H.walk(body_) if H.kind(x) in ("Call", "MethodCall")) <= 12 and any(
+                H.kind(x) == "Call" and (x.get("def") or "") in self.printers and (x.get("def") or "") in hirs and
+                any(len(m["arms"]) >= 5 for m in H.matches_on(hirs[x["def"]].get("body") or {}, "ast::Expr")) for x in H.walk(body_))
+            big = big or wraps_general
+            dispatches = bool(H.matches_on(body_, "ast::Expr"))
+            c[d] = (not big) and (nodes >= 2 or (nodes == 1 and not dispatches)) and hf.get("output") == "alloc::string::String" and "&mut alloc::string::String" not in " ".join(hf.get("inputs", []))
+        return c[d]
+
     # ---- paths
     def path_of(self, n, env):
         """access path of an expression that denotes (part of) the node being printed, else None"""
@@ -123,7 +142,7 @@ class Interp:
             if H.last(d) in ("make_indent",) or d in self.ws_fns:
                 return [(("ws",),)]
             hf_ = getattr(self.crate, "hir", {}).get(d)
-            if d in self.printers and hf_ is not None and hf_.get("inputs") and not AST_ARG.search(hf_["inputs"][0]) and d not in self.key_fns:
+            if d in self.printers and hf_ is not None and hf_.get("inputs") and (not AST_ARG.search(hf_["inputs"][0]) or self.is_fragment(d, hf_)) and d not in self.key_fns:
                 # a text helper of the printer modules (takes strings / flags, not an AST node): interpret its body with the
                 # parameters bound to the arguments; anything it does that is not modelled shows up as `unk`
                 depth_ = getattr(self, "_depth", 0)
